@@ -59,7 +59,7 @@ type writeDesc struct {
 
 type fnSummary struct {
 	rets     []rootSet
-	captures map[root]rootSet            // stores into memory of a non-local root: target -> value roots
+	captures map[root]rootSet              // stores into memory of a non-local root: target -> value roots
 	writes   map[root]map[string]writeDesc // non-local target root -> descriptors
 	reads    map[root]map[string]bool      // non-local root -> field descriptors loaded
 }
@@ -76,7 +76,7 @@ type aliasEngine struct {
 	impls    map[string][]*ssa.Function // "Iface.method" -> implementations in module
 	unknown  map[string]bool            // external callees treated conservatively
 	reach    map[*ssa.Function]map[*ssa.UnOp][]*ssa.Store
-	bind     map[root]rootSet           // P(g,i) -> union of the actual arguments at every call site of g (callers' terms)
+	bind     map[root]rootSet // P(g,i) -> union of the actual arguments at every call site of g (callers' terms)
 	changed  bool
 }
 
